@@ -147,3 +147,47 @@ contract('mapproxy.service.base:Server.handle', props=['C18'],
          opaque=['parse_request'],
          raises={},
          trace=[_request_error_rendered])
+
+
+# ---- RequestError.render: delegates to the handler of the request; without one the raw message only leaves as text/plain;
+# ---- error answers are never cacheable ------------------------------------------------------------------------------------------
+def _error_answer(ex, st, post, result):
+    import z3
+    rend = T.evs(st, 'render')
+    resp = T.evs(st, 'Response')
+    ch = T.evs(st, 'cache_headers')
+    src = [e for i, e in rend + resp]
+    ok = len(src) == 1 and len(ch) == 1 and ch[0][1].recv is not None and ch[0][1].recv.t.eq(src[0].result.t) \
+        and result.t.eq(src[0].result.t)
+    yield ('one_answer_returned', z3.BoolVal(bool(ok)),
+           'exactly one answer is produced (handler.render(self) or a plain Response) and it is the one returned')
+    nc = ok and 'no_cache' in ch[0][1].kwargs and not ch[0][1].args
+    goal = z3.BoolVal(bool(nc))
+    if nc:
+        goal = ex.truth(st, ch[0][1].kwargs['no_cache'])
+    yield ('error_answers_are_not_cacheable', goal, 'cache_headers(no_cache=True) is applied to the answer before it is returned')
+    plain = all(not (set(e.kwargs) & {'mimetype', 'content_type'}) for i, e in resp)
+    yield ('raw_message_only_with_default_text_plain', z3.BoolVal(bool(plain)),
+           'when no exception handler is attached the message is sent with the default content type (text/plain), never as markup')
+    goal = z3.BoolVal(True)
+    for i, e in resp:
+        stt = ex.opaque_field_at(st, e, post.env['self'], 'status')
+        got = e.kwargs.get('status')
+        if got is None or not hasattr(stt, 'isnone'):
+            goal = z3.BoolVal(False)
+            break
+        from pyvc.values import eq, VInt
+        gi = got.val if hasattr(got, 'isnone') else got
+        goal = z3.And(goal, z3.If(stt.isnone, eq(gi, VInt(500)), eq(gi, stt.val)))
+        if hasattr(got, 'isnone'):
+            goal = z3.And(goal, z3.Not(got.isnone))
+    yield ('plain_answer_status', goal, 'without a handler the status is the one of the error, 500 when it has none')
+    deleg = all(len(e.args) == 1 and e.args[0].t.eq(post.env['self'].t) for i, e in rend)
+    yield ('handler_renders_this_error', z3.BoolVal(bool(deleg)), 'the handler is asked to render this very error')
+
+
+contract(E_ + 'RequestError.render', props=['C18', 'C20'], types=dict(self='opaque'), returns='opaque', default_callee='opaque',
+         opaque_fields={'request': 'opt[opaque]', 'status': 'opt[int]', 'msg': 'str'},
+         opaque_spec={'render': {'pure': True}, 'Response': {'pure': True}, 'cache_headers': {'pure': True}},
+         opaque=['Response'],
+         trace=[_error_answer])
